@@ -1241,8 +1241,8 @@ def c06_27(ctx):
     """what a signature commits to: the three signature-hash preimages against their specifications, per hash type (legacy: every other input
     with its own sequence; BIP143; BIP341) -- a field left out of the digest can be altered without invalidating the spend (rules shared
     with C05.2-C05.4)"""
-    from rules.C05 import c05_2, c05_3, c05_4
-    return c05_2(ctx) + c05_3(ctx) + c05_4(ctx)
+    from rules.C05 import c05_2, c05_3_deferring, c05_4, c05_23, c05_24
+    return c05_2(ctx) + c05_3_deferring(ctx) + c05_4(ctx) + c05_23(ctx) + c05_24(ctx)
 
 
 
